@@ -1470,6 +1470,9 @@ static int sp_dgemm(char tA, char tB, number alpha, void *a, void *b,
       if (B->colptr[j+1]-B->colptr[j])
         for (l=0; l<m; l++)
           Z->rowind[Z->colptr[j]+l] = l;
+      else
+        for (l=C->colptr[j]; l<C->colptr[j+1]; l++)
+          Z->rowind[Z->colptr[j]+l-C->colptr[j]] = C->rowind[l];
 
       for (l=B->colptr[j]; l<B->colptr[j+1]; l++) {
 
@@ -1928,6 +1931,9 @@ static int sp_zgemm(char tA, char tB, number alpha, void *a, void *b,
       if (B->colptr[j+1]-B->colptr[j])
         for (l=0; l<m; l++)
           Z->rowind[Z->colptr[j]+l] = l;
+      else
+        for (l=C->colptr[j]; l<C->colptr[j+1]; l++)
+          Z->rowind[Z->colptr[j]+l-C->colptr[j]] = C->rowind[l];
 
       for (l=B->colptr[j]; l<B->colptr[j+1]; l++) {
 
